@@ -145,7 +145,14 @@ VariantOf(X, shape) ==
            [j \in 1..Len(X.steps) |-> IF shape = "tuple" THEN [X.steps[j] EXCEPT !.n = RenameTuple(X, @)] ELSE X.steps[j]], FALSE)
 EnumsFromStructs == {EnumT(<<VariantT(VName(67), "unit", <<>>, <<>>, FALSE), VariantOf(X, sh)>>, FALSE) :
                        X \in {Y \in DeclsD : \A i \in 1..Len(Y.fields) : ~Y.fields[i].tr}, sh \in {"tuple", "struct"}}
-EnumDecls == EnumsPlain \cup EnumsTransient \cup EnumsEvolved \cup EnumsFromStructs
+\* wide enums: 130 constructors - the constructor index is a var_u32 that takes two bytes from 128 on.  Unit
+\* constructors V129 .. V000 in this order (so that sorting reverses the numbering) and a last one with a field
+WideV(i) == <<86, 48 + (i \div 100), 48 + ((i \div 10) % 10), 48 + (i % 10)>>
+WideEnum(sorted) ==
+  EnumT([i \in 1..130 |-> IF i = 130 THEN VariantT(WideV(0), "tuple", VFields("tuple", <<U8>>), <<>>, FALSE)
+                           ELSE VariantT(WideV(130 - i), "unit", <<>>, <<>>, FALSE)], sorted)
+EnumsWide == {WideEnum(FALSE), WideEnum(TRUE)}
+EnumDecls == EnumsPlain \cup EnumsTransient \cup EnumsEvolved \cup EnumsFromStructs \cup EnumsWide
 
 AllDecls == StructDecls \cup EnumDecls
 
@@ -244,7 +251,8 @@ ExtensionSafe ==
     /\ \A v \in Good : LET d == Decode(E2, Encode(D, v).b) IN d.ok /\ d.v = MapVal(D, E2, v)
     /\ \A w \in {x \in EnumVals(E2) : IsNew(D, E2, x[2])} : Decode(D, Encode(E2, w).b) = DErr("BadCtor")
 \* indices the definition does not know, transient ones
-UnknownIdx == {U32(Len(D.variants)), U32(Len(D.variants) + 1), U32(127), U32(128), <<1, 0>>, <<15, P28 - 1>>}
+UnknownIdx == {U32(Len(D.variants)), U32(Len(D.variants) + 1), <<1, 0>>, <<15, P28 - 1>>}
+              \cup {U32(x) : x \in {y \in {127, 128, 255, 256, 16384} : y >= Len(D.variants)}}
 UnknownCtorErr ==
   D.k = "enum" =>
     /\ \A u \in UnknownIdx : Decode(D, <<0>> \o VarUW(u) \o <<0, 0, 0>>) = DErr("BadCtor")
